@@ -143,6 +143,7 @@ type FnCtx struct {
 	props       []string // property tags for K1 obligations
 	sitecount   int
 	heapReads   int
+	protected   []protCell
 	dbgUses     map[string][]ssa.Value
 	pfx         string // name prefix for inlined bodies
 	inl         *inlineCtx
